@@ -12,15 +12,15 @@ from ..alg import Sym, is_zero, Unsupported
 from ..flow import lexically_inside
 
 SCORES = "typhon/retrieval/scores.py"
-EXPECT = {"C19.pinball": 4, "C19.shapes": 1, "C19.mape": 6, "C19.bias": 6}
+EXPECT = {"C19.exact": 5, "C19.pinball": 4, "C19.shapes": 1, "C19.mape": 6, "C19.bias": 6}
 
 
 def _elementwise(ctx, fname):
     """Term of the quantity inside the outer mean of a one-line score, as function of (p, t)."""
     f = ctx.func(SCORES, fname)
     rets = [s for s in f.body if isinstance(s, ast.Return)]
-    if len(rets) != 1 or len(f.body) != 1:
-        raise AnalysisError("%s is not a single return" % fname)
+    if len(rets) != 1 or any(isinstance(s, (ast.If, ast.For, ast.While, ast.Try)) for s in f.body):
+        raise AnalysisError("%s is not straight-line code with a single return" % fname)
     call = rets[0].value
     red = dotted(call.func) if isinstance(call, ast.Call) else None
     return f, call, red
@@ -178,7 +178,30 @@ def rule_shapes(ctx):
            "(reshape(-1, 1) would accept any length and broadcast)", node=f.node, func=f)
 
 
+APPROX = ("isclose", "allclose", "finfo", "spacing", "nextafter")
+
+
+def rule_exact(ctx):
+    ctx.rule("C19.exact", "lint+T2", "the scores use no tolerance and do not modify their arguments")
+    bad = []
+    node0 = f0 = None
+    for name in ("quantile_score", "mean_quantile_score", "mape", "bias"):
+        f = ctx.func(SCORES, name)
+        for c in calls_in(f.node):
+            last = (dotted(c.func) or "").split(".")[-1]
+            if last in APPROX:
+                bad.append("%s: %s" % (name, norm(c)[:60]))
+                node0, f0 = node0 or c, f0 or f
+    ctx.ob("scores.no_tolerance", not bad, "tolerance-based constructs: %s" % (bad or "none"),
+           "none: the loss is tau|d| resp. (1-tau)|d| for EVERY d != 0 and 0 only for d == 0 (values agreeing to 1e-5 relative are not equal)",
+           node=node0 or ctx.func(SCORES, "quantile_score").node, func=f0 or ctx.func(SCORES, "quantile_score"))
+    from ..purity import rule_pure
+    rule_pure(ctx, "C19.exact", [(SCORES, n) for n in ("quantile_score", "mean_quantile_score", "mape", "bias")],
+              "the scores use no tolerance and do not modify their arguments")
+
+
 def run(ctx):
+    ctx.attempt(rule_exact, ctx)
     ctx.attempt(rule_pinball, ctx)
     ctx.attempt(rule_shapes, ctx)
     ctx.attempt(percent_rule, ctx, "mape", "C19.mape", lambda q: (q, q))
